@@ -407,6 +407,10 @@ def misc_ops(T, tier):
             "spectrum-pi": ({"H": H0, "wlist": np.linspace(-1, 1, 5) + 0.013, "c_ops": list(c), "a": e[0], "b": e[1]},
                             lambda d: qutip.spectrum(d["H"], d["wlist"], d["c_ops"], d["a"], d["b"], solver="pi")),
             "spectrum_correlation_fft": ({"tlist": np.linspace(0, 4, 16), "y": np.cos(np.linspace(0, 4, 16)).astype(complex)}, lambda d: qutip.spectrum_correlation_fft(d["tlist"], d["y"])),
+            "spectrum_correlation_fft-inverse": ({"tlist": np.linspace(0, 4, 16), "y": (np.cos(np.linspace(0, 4, 16)) + 0.5j * np.sin(np.linspace(0, 4, 16))).astype(complex)},
+                                                 lambda d: qutip.spectrum_correlation_fft(d["tlist"], d["y"], inverse=True)),
+            "spectrum_correlation_fft-strided": ({"tlist": np.linspace(0, 4, 16), "y": (np.exp(-0.3j * np.arange(32)) * np.exp(-0.1 * np.arange(32)))[::2]},
+                                                 lambda d: (qutip.spectrum_correlation_fft(d["tlist"], d["y"], inverse=True), qutip.spectrum_correlation_fft(d["tlist"], d["y"]))),
             "countstat": ({"L": qutip.liouvillian(H0, c), "c_ops": list(c), "wlist": np.array([0.0, 0.5])},
                           lambda d: (qutip.countstat_current(d["L"], d["c_ops"]), qutip.countstat_current_noise(d["L"], d["c_ops"], wlist=d["wlist"]))),
             "entropies": ({"rho": rho, "two": two, "sigma": rho2},
